@@ -356,3 +356,75 @@ def lens_inner_arguments(S):
     for label in ('rescaled', 'index_normalised'):
         S.claim_eq(f'{label}.size_parameter', got[label]['x'], got['reference']['x'])
         S.claim_eq(f'{label}.relative_index', got[label]['m'], got['reference']['m'])
+
+
+@obligation('C04.imageformation.spherical_detector', functions=IFF, timeout_s=120, nvalid=2,
+            stubs=['raw_fields := recorder + arbitrary field per point'],
+            bounds='points detector given in spherical form with 2 finite symbolic radii (angles concrete): the kernel '
+                   'receives k*r, theta, phi; unchanged by the length scale and the index normalisation')
+def if_spherical_detector(S):
+    c01_setup(S)
+    c, cfgs = _configs(S)
+    rd = [S.real('rdet0', pos=True), S.real('rdet1', pos=True)]
+    th, ph = [0.3, 1.2], [0.4, 2.5]
+    r = S.real('r', pos=True)
+    logs = {}
+    for label, mult, (n, nm, lam) in cfgs:
+        log = []
+        det = detector_points(r=_arr(S, [mult * v for v in rd]), theta=list(th), phi=list(ph))
+        sph = Sphere(n=n, r=mult * r, center=[0.0, 0.0, 0.0])
+        calc_field(det, sph, medium_index=nm, illum_wavelen=lam, illum_polarization=(1, 0),
+                   theory=Rec(S, 'spherical', log))
+        logs[label] = log[0]
+    ref = logs['reference']
+    n, nm, lam = cfgs[0][2]
+    k = 2 * (S.pi if S.sym else np.pi) * nm / lam
+    S.observe('kr', ref['pos'][0])
+    for i in range(2):
+        S.claim_eq(f'reference.kr[{i}]', ref['pos'][0][i], k * rd[i])
+        S.claim_eq(f'reference.theta[{i}]', ref['pos'][1][i], th[i])
+        S.claim_eq(f'reference.phi[{i}]', ref['pos'][2][i], ph[i])
+    for label in ('rescaled', 'index_normalised'):
+        S.claim_eq(f'{label}.positions', logs[label]['pos'], ref['pos'])
+        S.claim_eq(f'{label}.size_parameter', logs[label]['x'], ref['x'])
+        S.claim_eq(f'{label}.relative_index', logs[label]['m'], ref['m'])
+
+
+@obligation('C04.mielens.kernel_arguments_absorbing', functions=mc.ML_FUNCS, stubs=['MieLens._create_calculator := recorder'], nvalid=2, timeout_s=120,
+            angle_mode='atoms', max_paths=200,
+            bounds='MieLens.raw_fields glue with a complex (absorbing) sphere index, real and imaginary part symbolic, '
+                   'imaginary part of any size >= 0: the complex index ratio and the size parameter handed to the '
+                   'calculator are unchanged by the index normalisation and the length scale')
+def mielens_args_absorbing(S):
+    mc.setup(S)
+    log = []
+
+    def _create_calculator(self, particle_kz=None, index_ratio=None, size_parameter=None):
+        # the pupil integrals are not needed here: record what the glue hands over and stop
+        log.append(dict(particle_kz=particle_kz, index_ratio=index_ratio, size_parameter=size_parameter))
+        raise _Stop()
+    S.patch(MieLens, '_create_calculator', _create_calculator, both=True)
+    theory = MieLens(lens_angle=0.9)
+    c = S.real('c', pos=True)
+    nr, ni = S.real('n_re', pos=True), S.real('n_im', lo=0)
+    nm, lam = S.real('n_medium', pos=True), S.real('wavelen', pos=True)
+    n = core.SymC(nr, ni) if S.sym else complex(nr, ni)
+    cfgs = [('reference', 1, (n, nm, lam)), ('rescaled', c, (n, nm, c * lam)),
+            ('index_normalised', 1, (n / nm, 1, lam / nm))]
+    r = S.real('r', pos=True)
+    rho, phi, z = S.real('rho', lo=0, hi=20), S.angle('phi', 0, 2), S.real('z')
+    out = {}
+    for label, mult, (n_, nm_, lam_) in cfgs:
+        k = 2 * (S.pi if S.sym else np.pi) / (lam_ / nm_)
+        del log[:]
+        pos = mc.positions(S, [k * mult * rho], [phi], k * mult * z)
+        try:
+            theory.raw_fields(pos, Sphere(n=n_, r=mult * r, center=(0, 0, 0)), k, nm_, mc.pol_vector(S, 0))
+        except _Stop:
+            pass
+        out[label] = dict(log[0])
+    S.observe('x', out['reference']['size_parameter'])
+    S.claim_eq('reference.index_ratio', out['reference']['index_ratio'], n / nm)
+    for label in ('rescaled', 'index_normalised'):
+        for key in ('particle_kz', 'index_ratio', 'size_parameter'):
+            S.claim_eq(f'{label}.{key}', out[label][key], out['reference'][key])
